@@ -55,7 +55,8 @@ theorem step_nextRid_mono (s : Sys) (ev : Event) :
 theorem step_closeCalls (s : Sys) (ev : Event) :
     (step s ev).env.backend.closeCalls =
       match ev with
-      | .results _ rs => s.env.backend.closeCalls ++ cleanupList s.env.owner rs
+      | .results _ rs =>
+        s.env.backend.closeCalls ++ cleanupList s.env.owner (classify s.env.persistent rs)
       | _ => s.env.backend.closeCalls := by
   cases ev with
   | start => rfl
